@@ -167,6 +167,7 @@ def applyOp (c : Cfg) (d : D) (op : Array Json) : R D := do
       pure (fire c d (Ev.respReady p true))
     else pure d
   | "app_set" => pure (fire c d (Ev.appSet (← asNat (← arg 1)) (← asNat (← arg 2))))
+  | "cb" => pure d   -- static configuration, read by `handle` before the run
   | "app_set_thread" => pure (fire c d (Ev.appSetWorker (← asNat (← arg 1)) (← asNat (← arg 2))))
   | "lose" => pure (fire c d (Ev.lose (← asNat (← arg 1))))
   | "stop" =>
@@ -216,14 +217,41 @@ def natList (j : Json) (k : String) : R (List Nat) := do
   | .ok (.arr a) => a.toList.mapM asNat
   | _ => pure []
 
+/-- `["cb", x, "echo"] | ["cb", x, "set_to", v2] | ["cb", x, "set_other", y, w]` -/
+def cbOf (ops : Array Json) : R (List (Cid × Callback)) := do
+  let mut res : List (Cid × Callback) := []
+  for op in ops do
+    match op with
+    | .arr a =>
+      match (a[0]? : Option Json) with
+      | some (Json.str "cb") =>
+        let x ← asNat (a[1]?.getD Json.null)
+        let kind ← match (a[2]? : Option Json) with
+          | some (Json.str k) => pure k
+          | _ => throw "cb: kind expected"
+        let cb ← match kind with
+          | "echo" => pure Callback.echo
+          | "set_to" => do pure (Callback.setTo (← asNat (a[3]?.getD Json.null)))
+          | "set_other" => do pure (Callback.setOther (← asNat (a[3]?.getD Json.null)) (← asNat (a[4]?.getD Json.null)))
+          | _ => throw s!"cb: unknown kind {kind}"
+        res := res ++ [(x, cb)]
+      | _ => pure ()
+    | _ => pure ()
+  pure res
+
 def handle (j : Json) : R Json := do
   let imm ← natList j "imm"
   let nul ← natList j "nul"
   let fix12 := (j.getObjValAs? Bool "fix12").toOption.getD true
   let fix13 := (j.getObjValAs? Bool "fix13").toOption.getD true
   let fixResub := (j.getObjValAs? Bool "fixResub").toOption.getD true
-  let c : Cfg := { imm := fun x => imm.contains x, nul := fun x => nul.contains x, fix12 := fix12, fix13 := fix13, fixResub := fixResub }
   let ops ← getArr j "ops"
+  let cbs ← cbOf ops
+  let c : Cfg := { imm := fun x => imm.contains x, nul := fun x => nul.contains x, fix12 := fix12, fix13 := fix13,
+                   fixResub := fixResub,
+                   cb := fun x => match cbs.reverse.find? (fun e => e.1 = x) with
+                                  | some e => e.2
+                                  | none => Callback.none }
   let mut d : D := { s := init c }
   let mut digs : Array Json := #[]
   for op in ops do
